@@ -170,6 +170,9 @@ func (s *Store) CheckMonitors() []string {
 	if s.RBF.DoubleClosed > 0 {
 		out = append(out, fmt.Sprintf("%d readers closed twice", s.RBF.DoubleClosed))
 	}
+	if s.RBF.ReadAfterClose > 0 {
+		out = append(out, fmt.Sprintf("%d reads through a block reader that had already been closed (its pin on the block was gone)", s.RBF.ReadAfterClose))
+	}
 	return out
 }
 
